@@ -83,6 +83,8 @@ PCall(env, st, c) ==
          [st |-> st, ret |-> << >>, ops |-> << OpA(c.label, "raw", c.data) >>, err |-> ""]
     [] c.op = "chal" ->       \* RandomizedConstraintSystem::challenge_scalar (second phase only)
          [st |-> st, ret |-> << >>, ops |-> << OpC(c.label) >>, err |-> ""]
+    [] c.op = "fail" ->       \* the user's closure returns an error of its own
+         [st |-> st, ret |-> << >>, ops |-> << >>, err |-> "GadgetError"]
     [] c.op = "len" ->
          [st |-> st, ret |-> Len(st.aL), ops |-> << >>, err |-> ""]
     [] c.op = "setgate" ->    \* verification hook H1: overwrite one gate's assignment
@@ -116,6 +118,8 @@ VCall(env, st, c) ==
          [st |-> st, ret |-> << >>, ops |-> << OpA(c.label, "raw", c.data) >>, err |-> ""]
     [] c.op = "chal" ->
          [st |-> st, ret |-> << >>, ops |-> << OpC(c.label) >>, err |-> ""]
+    [] c.op = "fail" ->
+         [st |-> st, ret |-> << >>, ops |-> << >>, err |-> "GadgetError"]
     [] c.op = "len" ->
          [st |-> st, ret |-> st.nv, ops |-> << >>, err |-> ""]
     [] c.op = "setgate" ->    \* prover-only hook; nothing to do on the verifier
